@@ -1,5 +1,5 @@
 """C04 — every HTTP/1.x response is well-formed, correctly delimited and byte-exact."""
-import email.utils, itertools, os, re, socket, threading, time, zlib
+import itertools, json, os, random, re, shutil, signal, socket, subprocess, time, zlib
 from concurrent.futures import ThreadPoolExecutor
 from .. import common as C
 from .. import e2e
@@ -16,7 +16,8 @@ MANIFEST = dict(
          "differential runs (in-process harness with scripted write/writev/sendfile faults, exhaustive "
          "decision table) and by an end-to-end stream against the real server (static files of every "
          "boundary size x network backend x stream-response-body x HTTP version x client read pace, "
-         "pipelines, HEAD/304/404/ranges/directory redirects with CR LF tricks, CGI streaming), every "
+         "pipelines, HEAD/304/404/ranges/directory redirects with CR LF tricks, CGI streaming, and the same "
+         "server with write/writev/sendfile made to return short/EAGAIN/EINTR by an LD_PRELOAD shim), every "
          "response parsed by an independent strict RFC 9112 parser and compared byte-for-byte",
     note="trusted: Lean kernel (+propext, Quot.sound, Classical.choice), hand-written models validated by "
          "the h_h1resp correspondence and the end-to-end stream, tables/constants regenerated from "
@@ -223,7 +224,7 @@ def oracle_prep(t, out):
     try:
         rs = e2e.parse_responses(wire, head_for=[is_head], closed=not ka)
     except e2e.RespParseError as ex:
-        return "response is not a well-formed self-delimiting message: %s" % re.sub(r"\d+", "N", str(ex))[:60]
+        return "response is not a well-formed self-delimiting message: %s" % re.sub(r" b'.*| at \d+|\(.*", "", str(ex))[:60]
     if len(rs) != 1:
         return "%d messages on the wire for one response" % len(rs)
     r = rs[0]
@@ -317,8 +318,58 @@ def gen_prep(ctx):
 
 
 # ------------------------------------------------------------------ enc / redir / clen
+def dechunk_strict(b):
+    """RFC 9112 7.1 (no extensions, no trailers): returns the decoded body or None"""
+    i, out = 0, b""
+    while True:
+        j = b.find(b"\r\n", i)
+        if j < 0 or not re.fullmatch(rb"[0-9a-fA-F]+", b[i:j]):
+            return None
+        n = int(b[i:j], 16)
+        i = j + 2
+        if n == 0:
+            return out if b[i:] == b"\r\n" else None
+        if b[i + n:i + n + 2] != b"\r\n":
+            return None
+        out += b[i:i + n]
+        i += n + 2
+
+
 def oracle_enc(t, out):
     if out in ("bad-op", "<crash>"):
+        return None
+    if t[0] == "s1xx":
+        o = out.split(" ")
+        if len(o) != 2:
+            return None
+        hs = [] if t[2] == "-" else [x.split(":") for x in t[2].split(",")]
+        if any(b"\r" in C.unhx(k) + C.unhx(v) or b"\n" in C.unhx(k) + C.unhx(v) or not C.unhx(k) for _, k, v in hs):
+            return None
+        if any(C.unhx(k).lower() in (b"content-length", b"transfer-encoding") for _, k, v in hs):
+            return None         # a backend's own framing fields in its 1xx are relayed as they are (C10)
+        try:
+            rs = e2e.parse_responses(C.unhx(o[1]), closed=False)
+        except e2e.RespParseError as ex:
+            return "interim response is not a well-formed header section: %s" % re.sub(r" b'.*| at \d+", "", str(ex))[:50]
+        if len(rs) != 1 or rs[0]["status"] != int(t[1]) or rs[0]["body"]:
+            return "interim response is not exactly one bodiless 1xx message"
+        return None
+    if t[0] == "cfile":
+        o = out.split(" ")
+        if len(o) != 2 or o[0] != "0":
+            return "http_chunk_append_file_* failed on a readable file"
+        api, chunked, seed, flen, off, ln = t[1], int(t[2]), int(t[3]), int(t[4]), int(t[5]), int(t[6])
+        full = pat(seed, flen)
+        want = full if api in "dr" else full[off:off + ln]
+        got = C.unhx(o[1])
+        if chunked:
+            if not want and api != "D":
+                return None if got == b"" else "framing bytes queued for an empty file range"
+            got = dechunk_strict(got + b"0\r\n\r\n")
+            if got is None:
+                return "file range is not framed as a well-formed chunk"
+        if got != want:
+            return "queued bytes differ from the file range (%d vs %d bytes)" % (len(got), len(want))
         return None
     if t[0] == "clen":
         m = re.fullmatch(r"([0-9a-f]*)(<file>)?([0-9a-f]*)", out)
@@ -370,6 +421,11 @@ def oracle_enc(t, out):
 
 
 def classify_enc(t, out):
+    if t[0] == "s1xx":
+        return "s1xx:%s:%d" % (t[1], min(len(out) // 40, 6))
+    if t[0] == "cfile":
+        fl = int(t[4])
+        return "cfile:%s:%s:%s" % (t[1], t[2], "0" if fl == 0 else ("small" if fl <= 32768 else "large"))
     if t[0] == "enc":
         return "enc:%s:%s" % (t[1], "same" if out == t[2] else "escaped")
     if t[0] == "redir":
@@ -401,6 +457,22 @@ def gen_enc(ctx):
         s = s.replace(b"\x00", b"_")
         lines.append("redir %d 301 %s %s %s %s" % (rng.randint(0, 1), C.hx(b"http"), C.hx(b"h.example"), C.hx(b"/" + s),
                                                   C.hx(rng.choice([b"", b"q=1", b"a=b&c=%0a"]))))
+    for st in (100, 102, 103, 199):
+        for hs in [[], [("s", b"Link", b"</style.css>; rel=preload")], [("i", b"Link", b"<a>"), ("i", b"link", b"<b>"), ("s", b"X-E", b"")],
+                   [("s", b"Content-Length", b"5"), ("s", b"X-Sendfile", b"/x")]]:
+            lines.append("s1xx %d %s" % (st, hdr_tok(hs)))
+    fsz = [0, 1, 2, 15, 16, 17, 255, 256, 4095, 4096, 32767, 32768, 32769, 65535, 65536, 65537, 100000]
+    for fl in fsz:
+        for ch in (0, 1):
+            for api in "dr":
+                lines.append("cfile %s %d %d %d 0 0" % (api, ch, rng.randint(0, 250), fl))
+            for _ in range(4 if ctx.quick else 12):
+                off = rng.choice([0, 0, 1, fl // 2, max(0, fl - 1), fl])
+                ln = rng.choice([1, 2, 16, fl, fl + 5, max(1, fl - off), 32768, 32769])
+                lines.append("cfile R %d %d %d %d %d" % (ch, rng.randint(0, 250), fl, off, ln))
+                if fl:
+                    off = rng.randrange(fl)
+                    lines.append("cfile D %d %d %d %d %d" % (ch, rng.randint(0, 250), fl, off, rng.randint(1, fl - off)))
     for k in list(range(0, 70)) + [255, 256, 4095, 4096, 65535, 65536, 1048575, 1048576, 1048577, (1 << 31) - 1, 1 << 31,
                                    (1 << 32) + 5, (1 << 40) + 7, (1 << 62) + 1]:
         lines.append("clen %d" % k)
@@ -737,6 +809,11 @@ def e2e_cases(ctx, variant, rng):
         k = 2 if ctx.quick else len(scheds)
         for sc in rng.sample(scheds, k):
             cases.append(("slow-%d" % SIZES[i], [static_req(i), static_req(rng.choice(big)), static_req(i, close=True)], sc, None))
+    # several MiB outstanding while the client does not read: the socket buffers fill up, so that
+    # write/writev/sendfile return short or EAGAIN in the real server
+    bigs = [static_req(rng.choice(big[-6:])) for _ in range(7 if ctx.quick else 14)] + [static_req(big[-1], close=True)]
+    cases.append(("pipeline-big-stalled", bigs, (2048, 0.6, 65536, 0), None))
+    cases.append(("pipeline-big-trickle", bigs, (2048, 0.3, 30000, 0.0004), None))
     # one long pipeline mixing everything small
     mix = []
     for _ in range(12 if ctx.quick else 40):
@@ -811,10 +888,18 @@ def e2e_cases(ctx, variant, rng):
 
 
 def run_variant(ctx, bd, variant, rng, results):
-    srv = e2e.Server(bd, CONF % variant, modules=("mod_cgi",))
+    env = None
+    shim_log = None
+    if variant.get("shim"):
+        so = build_shim()
+        if so:
+            shim_log = os.path.join(C.scratch_dir("shimlog"), "counts")
+            env = {"LD_PRELOAD": so, "LTV_FAULT_SEED": str(variant["shim"]), "LTV_FAULT_LOG": shim_log,
+                   "ASAN_OPTIONS": "detect_leaks=0:abort_on_error=1:handle_abort=1:verify_asan_link_order=0"}
+    srv = e2e.Server(bd, CONF % variant, modules=("mod_cgi",), env=env)
     build_docroot(srv)
     cases = e2e_cases(ctx, variant, rng)
-    vname = "%(backend)s/stream%(stream)d/kareq%(kareq)d/ctrls%(ctrls)d" % variant
+    vname = "%(backend)s/stream%(stream)d/kareq%(kareq)d/ctrls%(ctrls)d" % variant + ("/faultshim" if env else "")
     validators = {}
 
     def one(case):
@@ -844,12 +929,188 @@ def run_variant(ctx, bd, variant, rng, results):
         msg, obs = check_exchange_adaptive(reqs, got, closed)
         return (vname, name, reqs, sched, msg, obs, got)
 
-    with srv:
+    faults = None
+    started = False
+    for attempt in range(3):            # a loaded machine may need more than one try; never an alarm by itself
+        try:
+            srv.start(timeout=20 + 20 * attempt)
+            started = True
+            break
+        except RuntimeError as ex:
+            srv.stop()
+            last_err = str(ex)[-400:]
+            time.sleep(1 + attempt)
+    if not started:
+        results.append((vname, [], None, True, "", ("skipped", last_err)))
+        return
+    try:
+        tracer = None
+        if variant.get("strace") and shutil.which("strace"):
+            tf = os.path.join(srv.root, "strace.out")
+            try:
+                tracer = subprocess.Popen(["strace", "-f", "-qq", "-e", "trace=write,writev,sendfile", "-o", tf, "-p",
+                                           str(srv.proc.pid)], stdout=subprocess.DEVNULL, stderr=subprocess.DEVNULL)
+                time.sleep(0.5)
+            except OSError:
+                tracer = None
         with ThreadPoolExecutor(4) as ex:
             out = list(ex.map(one, cases))
+        if tracer is not None:
+            tracer.send_signal(signal.SIGINT)
+            try:
+                tracer.wait(10)
+            except subprocess.TimeoutExpired:
+                tracer.kill()
+            try:
+                faults = count_write_faults(open(tf, errors="replace").read())
+            except OSError:
+                faults = None
         rep = srv.sanitizer_report()
         alive = srv.alive()
-    results.append((vname, out, rep, alive, srv.logs()[-1500:] if (rep or not alive) else ""))
+    finally:
+        srv.stop()
+    if shim_log:
+        try:
+            c = [int(x) for x in open(shim_log).read().split()]
+            faults = ("shim", c[0], c[1], c[2], c[3])
+        except (OSError, ValueError, IndexError):
+            faults = ("shim", 0, 0, 0, 0)
+    results.append((vname, out, rep, alive, srv.logs()[-1500:] if (rep or not alive) else "", faults))
+
+
+SHIM_SRC = r"""
+/* LD_PRELOAD fault shim for the real server: write()/writev()/sendfile() on sockets are made to
+ * return short counts, EAGAIN or EINTR following a seeded pseudo-random schedule */
+#define _GNU_SOURCE
+#include <dlfcn.h>
+#include <errno.h>
+#include <fcntl.h>
+#include <stdio.h>
+#include <stdlib.h>
+#include <string.h>
+#include <sys/sendfile.h>
+#include <sys/stat.h>
+#include <sys/uio.h>
+#include <unistd.h>
+static ssize_t (*real_write)(int, const void *, size_t);
+static ssize_t (*real_writev)(int, const struct iovec *, int);
+static ssize_t (*real_sendfile)(int, int, off_t *, size_t);
+static ssize_t (*real_sendfile64)(int, int, off_t *, size_t);
+static unsigned long long st = 88172645463325252ULL;
+static long n_calls, n_short, n_again, n_intr;
+static const char *logp;
+static unsigned rnd(void) { st = st * 6364136223846793005ULL + 1442695040888963407ULL; return (unsigned)(st >> 33); }
+static int is_sock(int fd) { struct stat s; return 0 == fstat(fd, &s) && S_ISSOCK(s.st_mode); }
+static void flush_counts(void) {
+    if (!logp || !real_write) return;
+    int fd = open(logp, O_WRONLY | O_CREAT | O_TRUNC, 0644);
+    if (fd < 0) return;
+    char b[128];
+    int l = snprintf(b, sizeof(b), "%ld %ld %ld %ld\n", n_calls, n_short, n_again, n_intr);
+    if (real_write(fd, b, (size_t)l)) {}
+    close(fd);
+}
+__attribute__((constructor)) static void init(void) {
+    real_write = dlsym(RTLD_NEXT, "write");
+    real_writev = dlsym(RTLD_NEXT, "writev");
+    real_sendfile = dlsym(RTLD_NEXT, "sendfile");
+    real_sendfile64 = dlsym(RTLD_NEXT, "sendfile64");
+    const char *s = getenv("LTV_FAULT_SEED");
+    if (s) st ^= strtoull(s, NULL, 10) * 0x9E3779B97F4A7C15ULL;
+    logp = getenv("LTV_FAULT_LOG");
+}
+__attribute__((destructor)) static void fini(void) { flush_counts(); }
+/* 0 = pass through, 1 = short (*n reduced), 2 = EAGAIN, 3 = EINTR */
+static int decide(size_t *n) {
+    ++n_calls;
+    unsigned r = rnd();
+    int k = 0;
+    switch (r & 7) {
+      case 0: case 1:
+        if (*n > 1) {
+            unsigned m = rnd();
+            size_t cut = (m & 3) == 0 ? 1 : (m & 3) == 1 ? *n - 1 : 1 + (size_t)(rnd() % (*n - 1));
+            *n = cut; ++n_short; k = 1;
+        }
+        break;
+      case 2: ++n_again; k = 2; break;
+      case 3: if ((r >> 3) & 1) { ++n_intr; k = 3; } break;
+      default: break;
+    }
+    if (k && 0 == ((n_short + n_again + n_intr) & 31)) flush_counts();
+    return k;
+}
+ssize_t write(int fd, const void *buf, size_t n) {
+    if (!real_write) init();
+    if (n && is_sock(fd)) {
+        switch (decide(&n)) { case 2: errno = EAGAIN; return -1; case 3: errno = EINTR; return -1; default: break; }
+    }
+    return real_write(fd, buf, n);
+}
+ssize_t writev(int fd, const struct iovec *iov, int cnt) {
+    if (!real_writev) init();
+    if (cnt > 0 && is_sock(fd)) {
+        size_t total = 0;
+        for (int i = 0; i < cnt; ++i) total += iov[i].iov_len;
+        size_t n = total;
+        if (n) switch (decide(&n)) { case 2: errno = EAGAIN; return -1; case 3: errno = EINTR; return -1; default: break; }
+        if (n < total) {
+            struct iovec v[64];
+            int m = 0;
+            for (int i = 0; i < cnt && i < 64 && n; ++i) {
+                v[m] = iov[i];
+                if (v[m].iov_len > n) v[m].iov_len = n;
+                n -= v[m].iov_len;
+                ++m;
+            }
+            return real_writev(fd, v, m);
+        }
+    }
+    return real_writev(fd, iov, cnt);
+}
+ssize_t sendfile(int out, int in, off_t *off, size_t n) {
+    if (!real_sendfile) init();
+    if (n && is_sock(out)) {
+        switch (decide(&n)) { case 2: errno = EAGAIN; return -1; case 3: errno = EINTR; return -1; default: break; }
+    }
+    return real_sendfile(out, in, off, n);
+}
+/* (x86-64: off_t is 64 bits; the server is built with _FILE_OFFSET_BITS=64 and calls sendfile64) */
+ssize_t sendfile64(int out, int in, off_t *off, size_t n) {
+    if (!real_sendfile64) init();
+    if (n && is_sock(out)) {
+        switch (decide(&n)) { case 2: errno = EAGAIN; return -1; case 3: errno = EINTR; return -1; default: break; }
+    }
+    return (real_sendfile64 ? real_sendfile64 : real_sendfile)(out, in, off, n);
+}
+"""
+
+_shim = [None]
+
+
+def build_shim():
+    """compile the fault shim into a scratch directory; returns the .so path or None"""
+    if _shim[0] is None:
+        d = C.scratch_dir("shim")
+        src = os.path.join(d, "ltv_faultshim.c")
+        with open(src, "w") as f:
+            f.write(SHIM_SRC)
+        so = os.path.join(d, "ltv_faultshim.so")
+        r = C.run(["gcc", "-O1", "-shared", "-fPIC", "-o", so, src, "-ldl"])
+        _shim[0] = so if r.returncode == 0 else False
+        if r.returncode != 0:
+            C.log("fault shim does not compile:\n" + r.stdout[-1500:])
+    return _shim[0] or None
+
+
+def count_write_faults(trace):
+    """(EAGAIN/EINTR results, short write()/sendfile() results) of the real server, from an strace log"""
+    again = len(re.findall(r"(?:write|writev|sendfile)\(.*= -1 (?:EAGAIN|EINTR)", trace))
+    short = 0
+    for m in re.finditer(r"(?:write|sendfile)\(\d+, .*, (\d+)\)\s+= (\d+)", trace):
+        if int(m.group(2)) < int(m.group(1)):
+            short += 1
+    return again, short
 
 
 def check_exchange_adaptive(reqs, got, closed):
@@ -859,25 +1120,45 @@ def check_exchange_adaptive(reqs, got, closed):
     return msg, obs
 
 
-def run_e2e(ctx):
+def run_e2e(ctx, only=None):
     bd, err = e2e.build_server()
     if bd is None:
         ctx.broken.append({"kind": "e2e-build", "names": ["lighttpd"], "log": (err or "")[-3000:]})
         return
     variants = [dict(backend=b, stream=s, kareq=100, ctrls=int((b == "writev") == (s == 1))) for b in ("writev", "sendfile") for s in (0, 1, 2)]
     variants.append(dict(backend="sendfile", stream=0, kareq=2, ctrls=0))
+    variants[5]["strace"] = True          # count the short / EAGAIN socket writes that happen naturally
+    # the same server with write/writev/sendfile made to return short / EAGAIN / EINTR (LD_PRELOAD shim)
+    variants.append(dict(backend="writev", stream=1, kareq=100, ctrls=0, shim=1 + ctx.seed))
+    variants.append(dict(backend="sendfile", stream=0, kareq=100, ctrls=0, shim=101 + ctx.seed))
+    if not ctx.quick:
+        for k, (b, st) in enumerate([("writev", 0), ("writev", 2), ("sendfile", 1), ("sendfile", 2), ("writev", 1), ("sendfile", 0)]):
+            variants.append(dict(backend=b, stream=st, kareq=100, ctrls=k % 2, shim=1000 + 17 * k + ctx.seed))
     for v in variants:
         v["parseopts"] = 'server.http-parseopts = ("url-ctrls-reject" => "disable")' if v["ctrls"] else ""
+    if only is not None:
+        variants = [v for v in variants if "%(backend)s/stream%(stream)d/kareq%(kareq)d/ctrls%(ctrls)d" % v
+                    + ("/faultshim" if v.get("shim") else "") == only] or variants
     results = []
     t0 = time.time()
     seeds = [ctx.rng.randrange(1 << 30) for _ in variants]
-    import random
     with ThreadPoolExecutor(len(variants)) as ex:
         list(ex.map(lambda a: run_variant(ctx, bd, a[0], random.Random(a[1]), results), zip(variants, seeds)))
     # model predictions for every observed response
     lines, where = [], []
     nresp = 0
-    for vname, out, rep, alive, logs in results:
+    for vname, out, rep, alive, logs, faults in results:
+        if faults is not None and faults[0] == "skipped":
+            ctx.notes.append("e2e %s SKIPPED: the server did not start (infrastructure): %s" % (vname, faults[1]))
+            continue
+        if faults is not None and faults[0] == "shim":
+            ctx.faults_fired += faults[2] + faults[3] + faults[4]
+            ctx.notes.append("e2e %s: fault shim in the real server: %d socket write calls, %d made short, %d EAGAIN, %d EINTR"
+                             % (vname, faults[1], faults[2], faults[3], faults[4]))
+        elif faults is not None:
+            ctx.faults_fired += faults[0] + faults[1]
+            ctx.notes.append("e2e %s under strace: %d EAGAIN/EINTR and %d short write()/sendfile() results occurred naturally "
+                             "at the real socket" % (vname, faults[0], faults[1]))
         if rep or not alive:
             ctx.violation("e2e:sanitizer:%s" % vname, "server crashed / sanitizer report during the end-to-end stream (%s)" % vname,
                           {"property": ctx.pid, "kind": "e2e-sanitizer", "variant": vname, "report": (rep or "")[-3000:], "logs": logs})
@@ -886,9 +1167,11 @@ def run_e2e(ctx):
             ctx.keys["e2e:%s:%s:%s" % (vn, re.sub(r"\d+", "N", name), "ok" if msg is None else "bad")] += 1
             ctx.dist["e2e:" + re.sub(r"-\d+", "", name)] += 1
             if msg:
-                ctx.violation("e2e:oracle:%s" % re.sub(r"\d+", "N", msg)[:80], msg,
+                sig = re.sub(r"^response \d+ \([^)]*\): ", "", msg)
+                sig = re.sub(r"b'.*", "", re.sub(r"\d+", "N", sig))[:70]
+                ctx.violation("e2e:oracle:%s" % sig, msg,
                               {"property": ctx.pid, "kind": "e2e-oracle", "variant": vn, "case": name,
-                               "requests": [C.hx(q.raw[:400]) for q in reqs], "read_schedule": sched,
+                               "requests": [C.hx(q.raw[:4096]) for q in reqs], "read_schedule": sched,
                                "received_head": C.hx(got[:600]), "received_len": len(got), "oracle_verdict": msg})
                 continue
             for q, o, wl, loc in obs:
@@ -925,7 +1208,7 @@ def run_e2e(ctx):
                               {"property": ctx.pid, "kind": "e2e-correspondence", "variant": vn, "case": name, "request": C.hx(q.raw[:400]),
                                "model_input": alts, "model_obs": preds, "impl_obs": o + " len=%s" % wl}, found=False)
     ctx.streams.append({"name": "e2e(real server: static files x backend x streaming x version x read pace, CGI, redirects)",
-                        "cases": sum(len(out) for _, out, _, _, _ in results), "responses": nresp, "model_predictions": len(where),
+                        "cases": sum(len(r[1]) for r in results), "responses": nresp, "model_predictions": len(where),
                         "disagreements": ndis, "wall_s": round(time.time() - t0, 2)})
     ctx.sample({"stream": "e2e", "variant": results[0][0] if results else "", "responses_checked": nresp})
 
@@ -955,15 +1238,46 @@ def run(ctx):
         return
     nw = gen_nw(ctx)
     ctx.differential("write-path(h_h1resp nw)", [exe], "h1resp", nw, oracle, classify)
-    for l in nw:
-        pass
+    impl_ff, _, _ = C.parallel_lines([exe], nw[:4000])
+    ctx.faults_fired += sum(int(m.group(1)) for o in impl_ff for m in [re.search(r" ff=(\d+)", o)] if m)
     ctx.differential("framing-table(h_h1resp prep)", [exe], "h1resp", gen_prep(ctx), oracle, classify)
     ctx.differential("encoders(h_h1resp enc/redir/clen)", [exe], "h1resp", gen_enc(ctx), oracle, classify)
     run_e2e(ctx)
+    ctx.exhaustive = False
+    ctx.notes.append("exhaustive sub-scopes: all write-result schedules of length <= %d over an 11-symbol alphabet on a "
+                     "3-chunk message (both backends, two max_bytes); every short-write position x {EAGAIN, EINTR, 0} of four "
+                     "fixed messages; the full framing table status(14) x method(4) x version x finished x keep-alive x "
+                     "flag sets(8) x header sets x bodies; every byte value under each of the 4 encoding tables"
+                     % (3 if ctx.quick else 4))
+    ctx.assumptions += ["handler-declared Transfer-Encoding / Upgrade, bare 1xx final statuses, successful CONNECT and "
+                        "handler-declared Content-Length that disagrees with the handler's own body are outside the "
+                        "property oracle (C10 / tunnels); model and C are still compared on them",
+                        "file chunks refer to files that are not truncated while queued (CqWF)",
+                        "chunk sizes below 2^62 bytes",
+                        "HAVE_PREADV2 platform: the mmap variant of the writev backend is not compiled"]
     ctx.rule = ("write path: random chunk layouts x fault schedules, every short-write position of fixed "
                 "messages, all schedules <= 3 over an 11-symbol alphabet; framing: full decision table "
                 "status x method x version x finished x keep-alive x flags x header sets x bodies; "
                 "encoders: every byte under every table; distinct = (stream, class, outcome) tuples")
+
+
+def replay(ctx, path):
+    rep = json.load(open(path))
+    print(json.dumps({k: (v if len(str(v)) < 600 else str(v)[:600] + "...") for k, v in rep.items() if k != "log"}, indent=1))
+    if str(rep.get("kind", "")).startswith("e2e"):
+        # re-run the end-to-end stream of that server variant and report what it finds now
+        run_e2e(ctx, only=rep.get("variant"))
+        for sig, what, r, found in ctx.violations:
+            print("replayed:", what)
+        if ctx.violations or ctx.broken:
+            print("VIOLATION property=%s replay=(replayed)" % ctx.pid)
+            return 1
+        print("no violation on the current tree")
+        return 0
+    if rep.get("kind") in ("correspondence", "property-oracle", "sanitizer-or-crash"):
+        ctx.lean(())
+        return replay_line(ctx, rep)
+    return 0
 
 
 def replay_line(ctx, rep):
